@@ -172,7 +172,7 @@ def checkInitial (S : Schema) (cfg : Cfg) (beh : Beh) (s : Bytes) : InitRes :=
     else
       let buf := rest.take n
       let handled : Option Delivery :=
-        if cfg.handlers.contains h.typ then some ⟨0, .handler, h, some buf, min beh.want n, beh.isPanic⟩ else none
+        if cfg.handlers.contains h.typ then some ⟨0, .handler, h, some buf, beh.took n n, beh.isPanic⟩ else none
       let crashed := cfg.handlers.contains h.typ && guarded (callRaw beh) == .panicked
       let base : InitRes := { out := .err, allocs := [Gen.HeaderSz, n], rest := rest.drop n, hdr := some h, handled := handled }
       if crashed then { base with out := .panic }
